@@ -204,9 +204,13 @@ impl FileSystem for OverlayFS {
         {
             return Ok(false);
         }
-        self.read_path(path)
-            .map(|path| path.exists())
-            .unwrap_or(Ok(false))
+        match self.read_path(path) {
+            Ok(path) => path.exists(),
+            Err(err) => match err.kind() {
+                VfsErrorKind::FileNotFound => Ok(false),
+                _ => Err(err),
+            },
+        }
     }
 
     fn remove_file(&self, path: &str) -> VfsResult<()> {
